@@ -473,8 +473,9 @@ package io
 
 //@ funcs \(\*Decoder\)\.(decode[A-Z][A-Za-z0-9]*|decode|Decode|defaultDecode|decodeError|decodeStringError|ReadObject|readObject|readObjectAsMap|fastDecode|fastDecodePtr) : template decany
 
+// (assumed) builds the field table of a class from the type registry; touches no decoder
 //@ func makeStructInfo
-//@   havoc
+//@   modifies nothing
 
 // a class definition: name, field count (validated), field names
 //@ func (*Decoder).ReadStruct
